@@ -176,6 +176,11 @@ func At(point string, detail string) {
 		for i := 0; i < 5000 && atomic.LoadInt32(&cancelled) == 0; i++ {
 			time.Sleep(time.Millisecond)
 		}
+		if os.Getenv("VERIF_SIGNAL_TWICE") != "" {
+			// an impatient user: the same signal again while the first one is being acted upon
+			_ = syscall.Kill(os.Getpid(), sigNum)
+			time.Sleep(20 * time.Millisecond)
+		}
 	}
 	if schedOut != nil && !schedSkip[point] {
 		schedMu.Lock()
